@@ -81,6 +81,15 @@ class InElastic(_Simu):
         assert value >= 0.0, "dt must be >= 0"
         self.__dt = value
 
+    def __Set_mesh(self, mesh) -> None:
+        _Simu.mesh.fset(self, mesh)
+        # a new mesh starts from a virgin material state (the committed state of the previous
+        # mesh has another size and another meaning)
+        self.__z = {}
+        self.__zOld = {}
+
+    mesh = property(_Simu.mesh.fget, __Set_mesh, doc=_Simu.mesh.__doc__)
+
     @property
     def material(self) -> Behavior:
         """The material."""
